@@ -117,6 +117,7 @@ struct RwSt {
 
 struct Global {
     bool running = false;
+    bool dying = false;
     Config cfg;
     Rng rng{1};
     std::vector<SimThread*> threads;
@@ -198,6 +199,7 @@ bool scripted(char kind, int32_t& val) {
 }
 
 [[noreturn]] void fatal(const std::string& kind, const std::string& vclass, const std::string& detail) {
+    G.dying = true;
     Fatal f{kind, vclass, detail};
     if (G.sink) G.sink(f);
     fprintf(stderr, "detsim fatal: %s %s %s\n", kind.c_str(), vclass.c_str(), detail.c_str());
@@ -266,6 +268,7 @@ void fire_timers() {
 // The heart: called by the baton holder `me` with me->state already set. Returns when `me` is chosen again
 // (never returns for a DONE thread: the OS thread simply continues into its teardown without the baton).
 void schedule(SimThread* me) {
+    if (G.dying) return;  // a fatal outcome is being reported: the reporter keeps the baton
     auto& st = G.stats;
     if (++st.steps > (uint32_t)G.cfg.step_cap) fatal("stepcap", "stepcap", "step cap exceeded");
     // clock: deterministic function of (seed, step)
@@ -421,6 +424,7 @@ void reset_run(const Config& cfg) {
     G.conds.clear();
     G.rwlocks.clear();
     G.cfg = cfg;
+    G.dying = false;
     G.rng = Rng(cfg.sched_seed);
     G.mono_ms = 0;
     G.wall_off_ms = 0;
@@ -657,6 +661,12 @@ void run(const Config& cfg, const std::function<void()>& body) {
 void yield() {
     if (!tl_me) return;
     Ign ig;
+    pre_op(tl_me);
+}
+void atomic_point() {
+    if (!tl_me || !G.cfg.atomic_points) return;
+    Ign ig;
+    G.stats.atomic_points++;
     pre_op(tl_me);
 }
 void yield_poll() {
